@@ -82,6 +82,18 @@ func runC01(c *eng.Ctx) {
 	ruleFreshSegmentList(c)
 	c.Floor(3)
 
+	// ---- R01.15 rolls and appends exclude each other; R01.8 extensions from repaired defects
+	c.Rule("R01.15", "K4")
+	ruleRollExcludesAppend(c)
+	c.Floor(3)
+	c.Rule("R01.8", "K5")
+	ruleTruncateUnseals(c)
+	ruleShrinkKeepsSize(c)
+	ruleSealedSegmentDoesNotPark(c)
+	c.Rule("R14.7", "K3")
+	ruleEncodeFailureIsAnError(c)
+	c.Floor(2)
+
 }
 
 func ruleOffsetIdentity(c *eng.Ctx) {
